@@ -108,8 +108,9 @@ WalkFrom(s) ==            \* ids marked "referenced" for a declaration whose sym
   IF "walk-stops-at-main" \in Dev
   THEN LET W[k \in 0..Len(tab)] ==        \* the k first steps of `for (a = next(s); a && !is_main(a); a = next(a))`
              IF k = 0 THEN [at |-> Next_(s), acc |-> {s}, stop |-> ~HasAliases(s)]
-             ELSE IF W[k-1].stop \/ main[W[k-1].at] = W[k-1].at THEN [W[k-1] EXCEPT !.stop = TRUE]
-             ELSE [at |-> Next_(W[k-1].at), acc |-> W[k-1].acc \cup {W[k-1].at}, stop |-> FALSE]
+             ELSE LET w == W[k-1] IN
+                  IF w.stop \/ main[w.at] = w.at THEN [w EXCEPT !.stop = TRUE]
+                  ELSE [at |-> Next_(w.at), acc |-> w.acc \cup {w.at}, stop |-> FALSE]
        IN W[Len(tab)].acc
   ELSE RangeOf(chain[tab[s].addr])
 
